@@ -422,7 +422,8 @@ def process(ctx, st, code, name, rd, tree, passwords, enc, cov, replay, rle=None
         distinct = list(dict.fromkeys(passwords))
         nlines = sum(n for _, n in rle) if rle is not None else len(passwords)
         if (len(distinct) <= (24 if rle is not None else 14) and nlines <= (model_cap or 60) and nguess <= 1500
-                and len(st.pipe_cases) < ctx.scale(34, 260)
+                and (dist["pipeline_model_runs_weighted"] < ctx.scale(20, 120) if rle is not None
+                     else dist["pipeline_model_runs"] - dist["pipeline_model_runs_weighted"] < ctx.scale(24, 200))
                 and not any(trainer_io.is_hex_shaped(p) or has_linebreak(p) or "\r" in p or "\n" in p
                             for p in passwords)):
             st.pipe_cases.append((pipeline_case(passwords, enc, cov, g, tree, all_lines, rle), replay, nlines))
